@@ -33,7 +33,11 @@ type Solver struct {
 	out       *bufio.Reader
 	defined   map[int]bool
 	declared  map[string]bool
+	stack     []int   // term ids asserted, one solver frame each (incremental mode)
+	defDepth  map[int]int // term id -> frame depth at which it was defined
 	log       io.Writer
+	Flat      bool // do not keep the path condition on the solver's stack (cvc5 is slow with many frames)
+	pendingDecls strings.Builder
 	timeoutMs int
 
 	Queries   int
@@ -42,6 +46,7 @@ type Solver struct {
 	NUnknown  int
 	Time      time.Duration
 	MaxQuery  time.Duration
+	ModelTime time.Duration
 	LastQuery string // SMT-LIB text of the last query (for evidence samples)
 	Errors    []string
 }
@@ -79,7 +84,7 @@ func NewSolver(name string, timeoutMs int, logPath string) (*Solver, error) {
 		return nil, err
 	}
 	s := &Solver{Name: name, cmd: cmd, in: in, out: bufio.NewReaderSize(outp, 1<<16),
-		defined: map[int]bool{}, declared: map[string]bool{}, timeoutMs: timeoutMs}
+		defined: map[int]bool{}, declared: map[string]bool{}, defDepth: map[int]int{}, timeoutMs: timeoutMs}
 	if logPath != "" {
 		f, err := os.Create(logPath)
 		if err == nil {
@@ -87,6 +92,7 @@ func NewSolver(name string, timeoutMs int, logPath string) (*Solver, error) {
 		}
 	}
 	s.send("(set-option :produce-models true)\n(set-logic ALL)\n")
+	s.Flat = strings.HasPrefix(name, "cvc5")
 	return s, nil
 }
 
@@ -132,6 +138,31 @@ func (s *Solver) define(t *Term, b *strings.Builder) {
 	}
 	s.defined[t.id] = true
 	fmt.Fprintf(b, "(define-fun %s () %s %s)\n", t.ref(), t.sort, t.body())
+}
+
+// defineScoped emits global declarations into decls and definitions into defs.
+func (s *Solver) defineScoped(t *Term, decls, defs *strings.Builder) {
+	if t.op == OpConst {
+		return
+	}
+	if t.op == OpVar {
+		if !s.declared[t.name] {
+			s.declared[t.name] = true
+			fmt.Fprintf(decls, "(declare-fun %s () %s)\n", smtSym(t.name), t.sort)
+		}
+		return
+	}
+	if s.defined[t.id] {
+		return
+	}
+	for _, a := range t.args {
+		s.defineScoped(a, decls, defs)
+	}
+	s.defined[t.id] = true
+	// declare-const + defining equation keeps the DAG shared (define-fun is
+	// macro-expanded into a tree by z3 4.8, which is exponential on deep
+	// ite-chains).
+	fmt.Fprintf(defs, "(declare-fun %s () %s)\n(assert (= %s %s))\n", t.ref(), t.sort, t.ref(), t.body())
 }
 
 // readResponse reads one s-expression or atom line from the solver.
@@ -197,6 +228,14 @@ func (p *Portfolio) Close() {
 
 func (p *Portfolio) Solvers() []*Solver { return p.solvers }
 
+func (p *Portfolio) Queries() int {
+	n := 0
+	for _, s := range p.solvers {
+		n += s.Queries
+	}
+	return n
+}
+
 func (p *Portfolio) Errors() []string {
 	var out []string
 	for _, s := range p.solvers {
@@ -207,7 +246,7 @@ func (p *Portfolio) Errors() []string {
 	return out
 }
 
-func (p *Portfolio) Check(assertions []*Term, vars []*Term) (SatResult, *Model) {
+func (p *Portfolio) Check(pc []*Term, extra []*Term, vars []*Term) (SatResult, *Model) {
 	for i := 0; i < len(p.Names); i++ {
 		if i >= len(p.solvers) {
 			lp := ""
@@ -220,7 +259,7 @@ func (p *Portfolio) Check(assertions []*Term, vars []*Term) (SatResult, *Model) 
 			}
 			p.solvers = append(p.solvers, s)
 		}
-		res, m := p.solvers[i].Check(assertions, vars)
+		res, m := p.solvers[i].Check(pc, extra, vars)
 		p.LastQuery = p.solvers[i].LastQuery
 		if res != Unknown {
 			if i > 0 {
@@ -232,26 +271,92 @@ func (p *Portfolio) Check(assertions []*Term, vars []*Term) (SatResult, *Model) 
 	return Unknown, nil
 }
 
-// Check decides satisfiability of the conjunction of assertions.  When sat
-// and vars is non-empty, the model for vars is returned.
-func (s *Solver) Check(assertions []*Term, vars []*Term) (SatResult, *Model) {
-	var b strings.Builder
-	for _, a := range assertions {
-		s.define(a, &b)
+// defineInc emits declarations and defining equations for t at frame depth d.
+func (s *Solver) defineInc(t *Term, d int, out *strings.Builder) {
+	if t.op == OpConst {
+		return
+	}
+	if _, ok := s.defDepth[t.id]; ok {
+		return
+	}
+	if t.op == OpVar {
+		s.defDepth[t.id] = d
+		fmt.Fprintf(out, "(declare-fun %s () %s)\n", smtSym(t.name), t.sort)
+		return
+	}
+	for _, a := range t.args {
+		s.defineInc(a, d, out)
+	}
+	s.defDepth[t.id] = d
+	// declare-const + defining equation keeps the DAG shared (define-fun is
+	// macro-expanded into a tree by z3 4.8, exponential on deep ite-chains).
+	if s.Flat {
+		// cvc5: macros are fine (and much faster than equations for LIA).
+		fmt.Fprintf(out, "(define-fun %s () %s %s)\n", t.ref(), t.sort, t.body())
+		return
+	}
+	fmt.Fprintf(out, "(declare-fun %s () %s)\n(assert (= %s %s))\n", t.ref(), t.sort, t.ref(), t.body())
+}
+
+// popTo pops solver frames down to depth d.
+func (s *Solver) popTo(d int, out *strings.Builder) {
+	if len(s.stack) <= d {
+		return
+	}
+	fmt.Fprintf(out, "(pop %d)\n", len(s.stack)-d)
+	s.stack = s.stack[:d]
+	for id, dd := range s.defDepth {
+		if dd > d {
+			delete(s.defDepth, id)
+		}
+	}
+}
+
+// Check decides satisfiability of pc AND extra.  The solver's assertion
+// stack is kept aligned with pc (one frame per conjunct, matched by term id),
+// so consecutive queries along a path - and along the next path, which shares
+// a prefix - only send what is new.  When sat, the model of vars is returned.
+func (s *Solver) Check(pc []*Term, extra []*Term, vars []*Term) (SatResult, *Model) {
+	if s.Flat {
+		return s.checkFlat(pc, extra, vars)
+	}
+	var out strings.Builder
+	// align
+	k := 0
+	for k < len(s.stack) && k < len(pc) && s.stack[k] == pc[k].id {
+		k++
+	}
+	s.popTo(k, &out)
+	for ; k < len(pc); k++ {
+		out.WriteString("(push 1)\n")
+		s.stack = append(s.stack, pc[k].id)
+		s.defineInc(pc[k], len(s.stack), &out)
+		fmt.Fprintf(&out, "(assert %s)\n", pc[k].ref())
+	}
+	// the query frame
+	out.WriteString("(push 1)\n")
+	s.stack = append(s.stack, -1)
+	for _, a := range extra {
+		s.defineInc(a, len(s.stack), &out)
 	}
 	for _, v := range vars {
-		s.define(v, &b)
+		s.defineInc(v, len(s.stack), &out)
 	}
-	var q strings.Builder
-	q.WriteString("(push 1)\n")
-	for _, a := range assertions {
-		fmt.Fprintf(&q, "(assert %s)\n", a.ref())
+	for _, a := range extra {
+		fmt.Fprintf(&out, "(assert %s)\n", a.ref())
 	}
-	q.WriteString("(check-sat)\n")
+	out.WriteString("(check-sat)\n")
+	text := out.String()
+	if s.pendingDecls.Len() > 0 {
+		// declarations must precede their first use; they are emitted at the
+		// current level but never popped logically because s.declared is only
+		// reset together with the frames (see below).
+		text = s.pendingDecls.String() + text
+		s.pendingDecls.Reset()
+	}
 	start := time.Now()
-	s.send(b.String())
-	s.send(q.String())
-	s.LastQuery = q.String()
+	s.send(text)
+	s.LastQuery = lastQueryText(pc, extra)
 	resp, err := s.readResponse()
 	el := time.Since(start)
 	s.Time += el
@@ -279,8 +384,95 @@ func (s *Solver) Check(assertions []*Term, vars []*Term) (SatResult, *Model) {
 			g.WriteByte(' ')
 		}
 		g.WriteString("))\n")
+		gstart := time.Now()
 		s.send(g.String())
 		r, err := s.readResponse()
+		s.Time += time.Since(gstart)
+		s.ModelTime += time.Since(gstart)
+		if err != nil || strings.Contains(r, "(error") {
+			s.Errors = append(s.Errors, "get-value: "+r)
+			res = Unknown
+		} else {
+			model, err = parseValues(r, vars)
+			if err != nil {
+				s.Errors = append(s.Errors, "parse model: "+err.Error()+": "+r)
+				res = Unknown
+			}
+		}
+	}
+	var pb strings.Builder
+	s.popTo(len(s.stack)-1, &pb)
+	s.send(pb.String())
+	switch res {
+	case Sat:
+		s.NSat++
+	case Unsat:
+		s.NUnsat++
+	default:
+		s.NUnknown++
+	}
+	return res, model
+}
+
+// checkFlat: definitions are global macros (level 0, never popped); each
+// query asserts the whole path condition in one frame.  This is the fastest
+// arrangement for cvc5.
+func (s *Solver) checkFlat(pc []*Term, extra []*Term, vars []*Term) (SatResult, *Model) {
+	var b strings.Builder
+	for _, a := range pc {
+		s.define(a, &b)
+	}
+	for _, a := range extra {
+		s.define(a, &b)
+	}
+	for _, v := range vars {
+		s.define(v, &b)
+	}
+	var q strings.Builder
+	q.WriteString("(push 1)\n")
+	for _, a := range pc {
+		fmt.Fprintf(&q, "(assert %s)\n", a.ref())
+	}
+	for _, a := range extra {
+		fmt.Fprintf(&q, "(assert %s)\n", a.ref())
+	}
+	q.WriteString("(check-sat)\n")
+	start := time.Now()
+	s.send(b.String())
+	s.send(q.String())
+	s.LastQuery = lastQueryText(pc, extra)
+	resp, err := s.readResponse()
+	el := time.Since(start)
+	s.Time += el
+	if el > s.MaxQuery {
+		s.MaxQuery = el
+	}
+	s.Queries++
+	res := Unknown
+	switch {
+	case err != nil:
+		s.Errors = append(s.Errors, "solver io: "+err.Error())
+	case resp == "sat":
+		res = Sat
+	case resp == "unsat":
+		res = Unsat
+	case strings.Contains(resp, "(error"):
+		s.Errors = append(s.Errors, resp)
+	}
+	var model *Model
+	if res == Sat && len(vars) > 0 {
+		var g strings.Builder
+		g.WriteString("(get-value (")
+		for _, v := range vars {
+			g.WriteString(v.ref())
+			g.WriteByte(' ')
+		}
+		g.WriteString("))\n")
+		gstart := time.Now()
+		s.send(g.String())
+		r, err := s.readResponse()
+		s.Time += time.Since(gstart)
+		s.ModelTime += time.Since(gstart)
 		if err != nil || strings.Contains(r, "(error") {
 			s.Errors = append(s.Errors, "get-value: "+r)
 			res = Unknown
@@ -302,6 +494,21 @@ func (s *Solver) Check(assertions []*Term, vars []*Term) (SatResult, *Model) {
 		s.NUnknown++
 	}
 	return res, model
+}
+
+func lastQueryText(pc, extra []*Term) string {
+	var b strings.Builder
+	for _, t := range pc {
+		fmt.Fprintf(&b, "(assert %s)\n", t.String())
+	}
+	for _, t := range extra {
+		fmt.Fprintf(&b, "(assert %s) ; negated obligation / branch condition\n", t.String())
+	}
+	b.WriteString("(check-sat)\n")
+	if b.Len() > 4000 {
+		return b.String()[:4000] + "..."
+	}
+	return b.String()
 }
 
 // parseValues parses "((name val) (name val) ...)".
